@@ -150,6 +150,7 @@ def forever_leg(ctx):
     from twisted.python.failure import Failure
     from twisted.internet.error import ConnectionDone
     r = ctx.rng
+    fv_lines = []
     named = [k for k in lp.REVERSE_MAP if k < 0x110000][:40]
     for si in range(ctx.n(60, 600)):
         d = tempfile.mkdtemp(prefix="verif-c17f-")
@@ -190,6 +191,7 @@ def forever_leg(ctx):
                 for pl in plans:
                     sched += pl
             t = r.randrange(1, 10 ** 5) * 10000
+            ml = ["fv-new 0"]
             proxies, t_conn, msgs_t = {}, {}, {v: [] for v in range(nv)}
             fac = None
             excs = []
@@ -206,12 +208,14 @@ def forever_leg(ctx):
                     t_conn[act[1]] = t
                     hs, _ = viewer_handshake(r, False)
                     px.viewer_sends(hs)
+                    ml += ["fv-connect %d %d" % (act[1], t), "fv-recv %d %d %s" % (act[1], t, hx(hs))]
                     descr.append("t=%d viewer %d connects" % (t, act[1]))
                 elif act[0] == "burst":
                     t += r.choice([0, 1, 3, 10000, 12345])
                     px = proxies[act[1]]
                     px.set_time(t)
                     _, _, exc = px.viewer_sends(b"".join(m[0] for m in act[2]))
+                    ml.append("fv-recv %d %d %s" % (act[1], t, hx(b"".join(m[0] for m in act[2]))))
                     if exc:
                         excs.append(exc)
                     msgs_t[act[1]] += [(m[1], t) for m in act[2]]
@@ -221,6 +225,7 @@ def forever_leg(ctx):
                     px = proxies[act[1]]
                     px.set_time(t)
                     px.srv.connectionLost(Failure(ConnectionDone()))
+                    ml.append("fv-lose %d" % act[1])
                     descr.append("t=%d viewer %d disconnects" % (t, act[1]))
             # the connections are gone: drop every reference to them, as the reactor does (a file that nobody closed explicitly
             # is flushed when its last reference goes away - not a loss)
@@ -233,10 +238,23 @@ def forever_leg(ctx):
             gc.collect()
             want = sorted(repr([tuple(e) for e in spec_entries(msgs_t[v], t_conn[v])]) for v in range(nv))
             got = []
+            impl_files = []
             for fn in sorted(os.listdir(d)):
                 with open(os.path.join(d, fn)) as f:
-                    got.append(repr([(lambda e: tuple(e) if not isinstance(e, str) else e)(parse_entry(ln)) for ln in f.read().splitlines(True)]))
+                    txt = f.read()
+                got.append(repr([(lambda e: tuple(e) if not isinstance(e, str) else e)(parse_entry(ln)) for ln in txt.splitlines(True)]))
+                # DIR/<yymmdd-HHMMSS>[-n].vdo -> (second, n)
+                stem = fn[:-4] if fn.endswith(".vdo") else fn
+                try:
+                    import calendar, time as _t
+                    sec = calendar.timegm(_t.strptime(stem[:13], "%y%m%d-%H%M%S"))
+                    suffix = int(stem[14:]) if len(stem) > 13 else 1
+                except ValueError:
+                    sec, suffix = -1, -1
+                impl_files.append("%d.%d:%s" % (sec, suffix, txt.encode("utf-8").hex()))
             got.sort()
+            ml.append("fv-files")
+            fv_lines.append((ml, sorted(impl_files), descr))
             ctx.count("forever_sessions_%d_viewers_%s" % (nv, "overlapping" if overlapping else "sequential") + ("_same_second" if same_second else ""))
             ctx.case(None, key=("forever", si))
             if excs or got != want:
@@ -247,6 +265,16 @@ def forever_leg(ctx):
                                   "how": "real VNCLoggingServerFactory with output = a directory, in-memory viewers, time.time / time.strftime of loggingproxy on a virtual clock"})
         finally:
             shutil.rmtree(d, ignore_errors=True)
+    # correspondence: VncModel/Forever.lean (factory + connections + files) on the same schedules
+    mout = ctx.drive([l for ml, _, _ in fv_lines for l in ml])
+    if mout is not None:
+        off = 0
+        for ml, impl_files, descr in fv_lines:
+            o = mout[off + len(ml) - 1]
+            off += len(ml)
+            model_files = sorted(":".join([x.split(":")[0].rsplit(".", 1)[0], x.split(":")[1]]) for x in o[3:].split(" ")) if o != "ok -" else []
+            if model_files != impl_files:
+                ctx.disagree("model-vs-forever-factory", {"input": {"schedule": descr}, "impl": [x[:200] for x in impl_files], "model": [x[:200] for x in model_files]})
 
 
 def run(ctx):
